@@ -1,5 +1,6 @@
 import RedisVerif.Model.Txn
 import RedisVerif.Lemmas.Txn
+import RedisVerif.Lemmas.TxnKV
 import RedisVerif.Props.C05
 
 /-!
@@ -471,6 +472,106 @@ theorem exec_atomic_of_independent [DecidableEq σ] (B : Backend σ κ γ ρ) (I
 
 end
 
+
+
+/-! ## independence discharged on the concrete store: clients that work on other keys -/
+
+/-- `c` is a single-key or key-less command that does not touch key `k` -/
+def avoidsKey (k : Nat) (c : KV.Cmd) : Bool := KV.single c && decide (KV.keyOf c ≠ some k)
+
+theorem kv_getReply_eq (s : KV.Store) (k : Nat) : KV.backend.getReply s k = (KV.exec s (.get k)).2 := rfl
+
+/-- on the concrete store a single-key command on key `kf` is independent of every transaction
+    whose queued commands are single-key / key-less commands on other keys and whose watched keys
+    are other keys (canonical stores; every command keeps a store canonical: `KV.exec_wf`) -/
+theorem kv_indep_of_other_keys (f : KV.Cmd) (kf : Nat) (hf : KV.keyOf f = some kf)
+    (q : List KV.Cmd) (ws : List Nat) (hq : ∀ c ∈ q, avoidsKey kf c = true) (hw : kf ∉ ws) :
+    Indep KV.backend NMap.WF q ws f := by
+  have frame_f : ∀ s, NMap.WF s → ∀ k, k ≠ kf → NMap.get (KV.exec s f).1 k = NMap.get s k :=
+    fun s h k hk => KV.exec_frame s h f kf k hf hk
+  refine ⟨?_, ?_, ?_⟩
+  · intro c hc s hs
+    have ha := hq c hc
+    simp only [avoidsKey, Bool.and_eq_true, decide_eq_true_eq] at ha
+    obtain ⟨hsingle, hne⟩ := ha
+    show (KV.exec (KV.exec s f).1 c).1 = (KV.exec (KV.exec s c).1 f).1
+    cases hkc : KV.keyOf c with
+    | none =>
+      rw [(KV.exec_keyless (KV.exec s f).1 s c hsingle hkc).1, (KV.exec_keyless s s c hsingle hkc).1]
+    | some kc =>
+      have hkne : kc ≠ kf := by
+        intro h; apply hne; rw [hkc, h]
+      have w1 := KV.exec_wf s hs f
+      have w2 := KV.exec_wf s hs c
+      apply NMap.ext (KV.exec_wf _ w1 c) (KV.exec_wf _ w2 f)
+      intro k
+      by_cases h1 : k = kc
+      · subst h1
+        rw [(KV.exec_local (KV.exec s f).1 s w1 hs c k hkc (frame_f s hs k hkne)).2,
+          frame_f _ w2 k hkne]
+      · by_cases h2 : k = kf
+        · subst h2
+          rw [KV.exec_frame _ w1 c kc k hkc h1,
+            (KV.exec_local (KV.exec s c).1 s w2 hs f k hf (KV.exec_frame s hs c kc k hkc h1)).2]
+        · rw [KV.exec_frame _ w1 c kc k hkc h1, frame_f s hs k h2, frame_f _ w2 k h2,
+            KV.exec_frame s hs c kc k hkc h1]
+  · intro c hc s hs
+    have ha := hq c hc
+    simp only [avoidsKey, Bool.and_eq_true, decide_eq_true_eq] at ha
+    obtain ⟨hsingle, hne⟩ := ha
+    show (KV.exec (KV.exec s f).1 c).2 = (KV.exec s c).2
+    cases hkc : KV.keyOf c with
+    | none => exact (KV.exec_keyless (KV.exec s f).1 s c hsingle hkc).2
+    | some kc =>
+      have hkne : kc ≠ kf := by
+        intro h; apply hne; rw [hkc, h]
+      exact (KV.exec_local (KV.exec s f).1 s (KV.exec_wf s hs f) hs c kc hkc (frame_f s hs kc hkne)).1
+  · intro k hk s hs
+    have hkne : k ≠ kf := by
+      intro h; apply hw; rw [← h]; exact hk
+    rw [kv_getReply_eq, kv_getReply_eq]
+    exact (KV.exec_local (KV.exec s f).1 s (KV.exec_wf s hs f) hs (.get k) k rfl (frame_f s hs k hkne)).1
+
+/-- **EXEC on the concrete store is atomic with respect to clients that work on other keys**,
+    under EVERY schedule: if every command served to the other clients while EXEC runs is a
+    single-key command on a key that no queued command touches and that is not watched, the
+    outcome (store, reply, watch verdict) is the serial outcome "EXEC in one piece, then the
+    others" -/
+theorem kv_exec_serializable_other_keys (sched : List (List KV.Cmd)) (t : ConnTxn Nat KV.Cmd KV.Rep)
+    (s : KV.Store) (hin : t.inTxn = true) (herr : t.errors = false) (hs : NMap.WF s)
+    (hf : ∀ f ∈ sched.flatten, ∃ kf, KV.keyOf f = some kf ∧
+      (∀ c ∈ t.queue, avoidsKey kf c = true) ∧ kf ∉ t.watched.map (·.1)) :
+    ((step KV.backend sched t s .exec).2.1, (step KV.backend sched t s .exec).2.2) =
+      serialExec KV.backend t s [] sched.flatten :=
+  exec_serializable_of_independent KV.backend NMap.WF (fun s c h => KV.exec_wf s h c) sched t s hin herr hs
+    (fun f hm => by
+      obtain ⟨kf, h1, h2, h3⟩ := hf f hm
+      exact kv_indep_of_other_keys f kf h1 t.queue (t.watched.map (·.1)) h2 h3)
+
+/-- non-vacuity: a transaction on keys 1 and 2 (key 1 watched) with the other clients writing keys
+    3 and 4 between its store accesses — the hypotheses hold and the outcome is the serial one
+    (contrast `exec_not_isolated_counterexample`, where the foreign write hits key 1) -/
+example :
+    let t : ConnTxn Nat KV.Cmd KV.Rep :=
+      { inTxn := true, queue := [.set 1 [49], .get 1, .incr 2, .ping], errors := false,
+        watched := [(1, .bulk (some [48]))] }
+    let s : KV.Store := [(1, .str [48]), (4, .list [[7]])]
+    let sched : List (List KV.Cmd) := [[], [.set 3 [50]], [.rpush 4 [[8]]], [], [.del 3, .sadd 5 9]]
+    NMap.WF s ∧
+    (∀ f ∈ sched.flatten, ∃ kf, KV.keyOf f = some kf ∧ (∀ c ∈ t.queue, avoidsKey kf c = true) ∧
+      kf ∉ t.watched.map (·.1)) ∧
+    ((step KV.backend sched t s .exec).2.1, (step KV.backend sched t s .exec).2.2) =
+      ([(1, .str [49]), (2, .str [49]), (4, .list [[7], [8]]), (5, .set [9])],
+       .results [.simple .ok, .bulk (some [49]), .int 1, .simple .pong]) := by
+  refine ⟨by decide, ?_, by decide⟩
+  intro f hf
+  simp only [List.flatten_cons, List.flatten_nil, List.nil_append, List.append_nil, List.cons_append,
+    List.mem_cons, List.not_mem_nil, or_false] at hf
+  rcases hf with rfl | rfl | rfl | rfl
+  · exact ⟨3, rfl, by decide, by decide⟩
+  · exact ⟨4, rfl, by decide, by decide⟩
+  · exact ⟨3, rfl, by decide, by decide⟩
+  · exact ⟨5, rfl, by decide, by decide⟩
 
 /-! ## the two machines in lock step -/
 
